@@ -46,7 +46,7 @@ PROPS["C01"] = {
             "every transition executes the real code and compares as_bytes/predicates with integer arithmetic mod p. "
             "A state is non-trivial (counted in distinct_nontrivial) if it is a distinct (depth, limbs) state of the machine.",
     "assumptions": COMMON_ASSUMPTIONS,
-    "runs": lambda tier: [R("simd"), R("serial32"), R("fiat64"), R("fiat32"), R("avx512")] if tier == "quick" else [R(b) for b in ALL_BACKENDS],
+    "runs": lambda tier: [R("simd"), R("serial32"), R("fiat64"), R("fiat32"), R("avx512")] if tier == "quick" else [R(b, deep=True) for b in ALL_BACKENDS],
     "level_text": "Explicit-state exploration of operation chains on the real field types from raw-limb lattice corners (all limbs at 0 / mask / headroom bound), every step compared with integer arithmetic mod p; exhaustive within the stated lattice, depth and pool, for every backend's representation.",
     "design_ref": "DESIGN.md section 4, C01",
     "level_note": "Decides the property for the enumerated limb lattice and depth only; trusted: reference model (self-tested), hooks forward unchanged, stateright search engine.",
@@ -72,7 +72,7 @@ PROPS["C02"] = _std(
     "Explicit-state exploration of operator chains on the real Scalar type against Z/lZ, plus exhaustive corner alphabets for every constructor, for both the 52-bit and 29-bit limb backends.",
     "DESIGN.md section 4, C02",
     "explicit-state BFS (stateright) over scalar values + exhaustive corner-alphabet enumeration against a reference model",
-    lambda tier: [R("simd"), R("serial32")] if tier == "quick" else [R("simd"), R("serial32"), R("serial64"), R("fiat32"), R("fiat64")],
+    lambda tier: [R("simd"), R("serial32")] if tier == "quick" else [R("simd", deep=True), R("serial32", deep=True), R("serial64"), R("fiat32"), R("fiat64"), R("simd", "rel-legacy"), R("serial32", "rel-legacy")],
 )
 
 PROPS["C03"] = _std(
@@ -110,7 +110,7 @@ PROPS["C06"] = _std(
     "Explicit-state exploration of Ristretto operation histories and coset representatives against a transcription of RFC 9496; decoder/one-way-map enumerated on structured alphabets.",
     "DESIGN.md section 4, C06",
     "explicit-state BFS over real representatives + alphabet enumeration against an RFC 9496 transcription",
-    lambda tier: [R("simd"), R("serial32")] if tier == "quick" else [R("simd"), R("simd", dispatch="serial"), R("serial32"), R("serial64"), R("fiat64"), R("fiat32"), R("avx512")],
+    lambda tier: [R("simd"), R("serial32")] if tier == "quick" else [R("simd", deep=True), R("simd", dispatch="serial"), R("serial32", deep=True), R("serial64"), R("fiat64"), R("fiat32"), R("avx512")],
 )
 
 PROPS["C07"] = _std(
@@ -120,7 +120,7 @@ PROPS["C07"] = _std(
     "Exhaustive over structured (k, u) alphabets and all short bit strings against the RFC 7748 ladder, which shares no code or formulas with the Edwards arithmetic.",
     "DESIGN.md section 4, C07",
     "exhaustive alphabet enumeration against an RFC 7748 transcription",
-    lambda tier: [R("simd"), R("serial32")] if tier == "quick" else [R(b) for b in ALL_BACKENDS] + [R("simd", "rel-notables"), R("simd", dispatch="serial")],
+    lambda tier: [R("simd"), R("serial32"), R("simd", "rel-legacy")] if tier == "quick" else [R(b) for b in ALL_BACKENDS] + [R("simd", "rel-notables"), R("simd", dispatch="serial"), R("simd", "rel-legacy"), R("serial32", "rel-legacy")],
 )
 
 PROPS["C08"] = _std(
@@ -130,7 +130,7 @@ PROPS["C08"] = _std(
     "Explicit-state exploration of (key, message, context, signature) tuples within mutation distance 2 of honest ones, plus exhaustive signing alphabets, against an RFC 8032 transcription self-tested on the RFC vectors.",
     "DESIGN.md section 4, C08",
     "explicit-state BFS over verification tuples + exhaustive signing alphabet against an RFC 8032 transcription",
-    lambda tier: [R("simd"), R("serial32", "rel-notables")] if tier == "quick" else [R(b) for b in ALL_BACKENDS] + [R("simd", "rel-notables"), R("simd", dispatch="serial")],
+    lambda tier: [R("simd"), R("serial32", "rel-notables")] if tier == "quick" else [R(b, deep=(b == "simd")) for b in ALL_BACKENDS] + [R("simd", "rel-notables"), R("simd", dispatch="serial")],
 )
 
 PROPS["C09"] = _std(
@@ -176,7 +176,7 @@ PROPS["C13"] = _std(
     "Explicit-state exploration of batch construction histories against the conjunction of RFC 8032 single verifications.",
     "DESIGN.md section 4, C13",
     "explicit-state BFS over batch histories against a reference model",
-    lambda tier: [R("simd"), R("simd", dispatch="serial")] if tier == "quick" else [R("simd"), R("simd", dispatch="serial"), R("serial32"), R("fiat64"), R("avx512"), R("avx512", dispatch="avx2")],
+    lambda tier: [R("simd"), R("simd", dispatch="serial")] if tier == "quick" else [R("simd", deep=True), R("simd", dispatch="serial"), R("serial32"), R("fiat64"), R("avx512"), R("avx512", dispatch="avx2")],
 )
 
 PROPS["C15"] = _std(
